@@ -57,7 +57,7 @@ Definition LtPre (s : st) (m : option tev) : Prop :=
 
 Definition Rt (c : cfg) (s : st) (m : option tev) : Prop :=
   match class_of (pc s) with
-  | CBefore => m = None /\ tactive s = false /\ ((cur s = 0 /\ np s = 0) \/ (cur s = 1 /\ 1 <= np s)) /\
+  | CBefore => m = None /\ tactive s = false /\ (cur s = 0 \/ (cur s = 1 /\ 1 <= np s)) /\
                (forall i, ball_i s i = 0) /\ (pc s = AtEv GSd -> ending s = true \/ 1 <= np s)
   | CPre => tactive s = false /\ Core c s /\ LtPre s m
   | CIn => tactive s = true /\ Core c s /\
@@ -125,44 +125,33 @@ Proof.
       destruct (cur s) eqn:C; [left; reflexivity | right].
       apply negb_true_iff in G. apply Nat.ltb_ge in G. unfold rnd. cbn [fix_gate fixed andb] in G.
       destruct (tactive s); cbn [negb] in G; exact G.
+    - left. destruct (if newest then rev (heldq s) else heldq s); reflexivity.
     - left. unfold upd_cur. destruct (cur s); reflexivity. }
   destruct Q as [Q|Q]; [rewrite Q; exact P | right; exact Q].
 Qed.
 
 (* flush *)
-Lemma ball_i_flush s i : ball_i (flush s) i = ball_i s i.
+Lemma ball_i_flush v c s i : ball_i (flush v c s) i = ball_i s i.
 Proof. unfold ball_i. rewrite players_flush, nth_app_repeat. reflexivity. Qed.
 
-Lemma cur_flush s : cur (flush s) = if (cur s =? 0) && (0 <? np s + pending s) then 1 else cur s.
-Proof.
-  unfold flush, np. destruct (cur s) eqn:C; cbn [Nat.eqb andb]; [|simpl; exact C].
-  destruct (players s ++ repeat (0, 0) (pending s)) eqn:E.
-  - apply (f_equal (@length _)) in E. rewrite app_length, repeat_length in E. cbn in E.
-    replace (length (players s) + pending s) with 0 by lia. cbn. exact C.
-  - apply (f_equal (@length _)) in E. rewrite app_length, repeat_length in E. cbn [length] in E.
-    rewrite E. reflexivity.
-Qed.
-
-Lemma pending_flush s : pending (flush s) = 0.
-Proof. unfold flush. destruct (cur s); [destruct (players s ++ repeat (0, 0) (pending s))|]; reflexivity. Qed.
-
-Lemma Rt_flush c s m : Rt c s m -> Pend s -> Rt c (flush s) m /\ pending (flush s) = 0.
+Lemma Rt_flush c s m : Rt c s m -> Pend s -> Rt c (flush fixed c s) m /\ pending (flush fixed c s) = 0.
 Proof.
   intros H P. split; [|apply pending_flush].
-  destruct (misc_flush s) as (X1 & X2 & X3 & X4).
-  pose proof (pc_flush s) as Ppc. pose proof (np_flush s) as N. pose proof (cur_flush s) as C.
-  assert (Hb : forall i, ball_i (flush s) i = ball_i s i) by apply ball_i_flush.
+  destruct (misc_flush fixed c s) as (X1 & X2 & X3 & X4).
+  pose proof (pc_flush fixed c s) as Ppc. pose proof (np_flush fixed c s) as N.
+  assert (Hb : forall i, ball_i (flush fixed c s) i = ball_i s i) by apply ball_i_flush.
   unfold Rt in *. rewrite Ppc. destruct (class_of (pc s)) eqn:Cl.
   - destruct H as (A & B & D & E & F). rewrite X4, X3. repeat split; auto.
-    + destruct D as [[D1 D2]|[D1 D2]].
-      * rewrite C, N, D1, D2. cbn [Nat.eqb andb Nat.add]. destruct (pending s); cbn; [left; auto | right; split; lia].
-      * right. rewrite C, N, D1. cbn [Nat.eqb andb]. split; lia.
+    + destruct D as [D1|[D1 D2]].
+      * destruct (cur_flush0 c s D1) as [C1 C2].
+        destruct (Nat.eq_dec (cur (flush fixed c s)) 0) as [Z|NZ]; [left; exact Z | right; split; lia].
+      * right. rewrite (cur_flush_pos fixed c s) by lia. split; lia.
     + intro i. rewrite Hb. apply E.
     + intro G. destruct (F G) as [F1|F1]; [left; exact F1 | right; lia].
   - destruct H as (A & (B1 & B2 & B3) & D).
-    assert (C' : cur (flush s) = cur s) by (rewrite C; destruct (cur s); [lia | reflexivity]).
-    assert (Hp : pball (flush s) = pball s) by (rewrite !pball_ball_i, C'; destruct (cur s); [reflexivity | apply Hb]).
-    assert (Hr : rnd (flush s) = rnd s) by (unfold rnd; rewrite Hp, X4; reflexivity).
+    assert (C' : cur (flush fixed c s) = cur s) by (apply cur_flush_pos; lia).
+    assert (Hp : pball (flush fixed c s) = pball s) by (rewrite !pball_ball_i, C'; destruct (cur s); [reflexivity | apply Hb]).
+    assert (Hr : rnd (flush fixed c s) = rnd s) by (unfold rnd; rewrite Hp, X4; reflexivity).
     assert (R1 : 0 < pending s -> rnd s = 1) by (intro Q; destruct P as [P|[P|P]]; lia).
     rewrite X4. split; [exact A|]. split.
     + unfold Core. rewrite C', N, Hr. split; [lia|]. split; [|exact B3].
@@ -174,9 +163,9 @@ Proof.
       * rewrite Z, Nat.add_0_r. auto.
       * assert (rnd s = 1) by (apply R1; lia). repeat split; try lia.
   - destruct H as (A & (B1 & B2 & B3) & n0 & D1 & D2 & D3).
-    assert (C' : cur (flush s) = cur s) by (rewrite C; destruct (cur s); [lia | reflexivity]).
-    assert (Hp : pball (flush s) = pball s) by (rewrite !pball_ball_i, C'; destruct (cur s); [reflexivity | apply Hb]).
-    assert (Hr : rnd (flush s) = rnd s) by (unfold rnd; rewrite Hp, X4; reflexivity).
+    assert (C' : cur (flush fixed c s) = cur s) by (apply cur_flush_pos; lia).
+    assert (Hp : pball (flush fixed c s) = pball s) by (rewrite !pball_ball_i, C'; destruct (cur s); [reflexivity | apply Hb]).
+    assert (Hr : rnd (flush fixed c s) = rnd s) by (unfold rnd; rewrite Hp, X4; reflexivity).
     assert (R1 : 0 < pending s -> rnd s = 1) by (intro Q; destruct P as [P|[P|P]]; lia).
     assert (Rp : rnd s = pball s) by (unfold rnd; rewrite A; lia).
     rewrite X4. split; [exact A|]. split.
@@ -255,10 +244,10 @@ Ltac same_class Epc H P :=
     | reflexivity | reflexivity | reflexivity | auto | exact H ]
   | exact P ].
 
-Lemma Rt_adv c s m : 1 <= bpg c -> Rb c s m -> enabled fixed s ->
+Lemma Rt_adv c s m : 1 <= bpg c -> Rb c s m -> Inv s -> enabled fixed s ->
   exists m', mrun (tstep c) m (snd (advance fixed c s)) = Some m' /\ Rb c (fst (advance fixed c s)) m'.
 Proof.
-  intros Hb [H P] En. unfold advance. unfold enabled in En.
+  intros Hb [H P] (_ & _ & _ & _ & I5) En. unfold advance. unfold enabled in En.
   destruct (pc s) as [[]| | |] eqn:Epc.
   - (* GWS *) same_class Epc H P.
   - (* GSg *)
@@ -268,32 +257,49 @@ Proof.
     + apply Nat.ltb_lt in N0. apply goto_t; [discriminate | | exact P].
       eapply Rt_transfer; [simpl pc; rewrite Epc; reflexivity | intros _; right; right; exact N0
                           | reflexivity | reflexivity | reflexivity | auto | exact H].
-    + destruct (gate fixed c s && own_ok c).
-      * replace (fix_wait fixed && ending (add_first_player s) || (0 <? np (add_first_player s))) with true
-          by (unfold np; simpl; rewrite orb_true_r; reflexivity).
-        apply goto_t; [discriminate | | exact P].
-        unfold Rt. simpl pc. cbn [class_of]. split; [exact A|]. split; [exact B|]. split; [right; split; [reflexivity | unfold np; simpl; lia]|].
-        split; [intro i; unfold ball_i; simpl; destruct i as [|[|i]]; reflexivity|].
-        intros _. right. unfold np. simpl. lia.
-      * destruct (fix_wait fixed && ending s || (0 <? np s)) eqn:W.
-        -- apply goto_t; [discriminate | | exact P].
-           eapply Rt_transfer; [simpl pc; rewrite Epc; reflexivity | | reflexivity | reflexivity | reflexivity | auto | exact H].
-           intros _. right. left. rewrite N0, orb_false_r in W. exact W.
-        -- exists m. split; [reflexivity|]. split; [|exact P].
-           eapply Rt_transfer; [simpl pc; rewrite Epc; reflexivity | simpl pc; intro; discriminate
-                               | reflexivity | reflexivity | reflexivity | auto | exact H].
+    + apply Nat.ltb_ge in N0. assert (Zn : np s = 0) by lia.
+      assert (Zc : cur s = 0) by (destruct D as [D|[D1 D2]]; [exact D | lia]).
+      (* the state after the game's own request, when the first player is not (yet) added *)
+      assert (WP : forall x, pc x = pc s -> pending x = 0 -> tactive x = false -> cur x = 0 -> ending x = ending s ->
+                   pev x = false -> (forall i, ball_i x i = 0) ->
+                 exists m', mrun (tstep c) m (snd (if fix_wait fixed && ending x || pev x then goto GSd x else (set_pc WaitPlayer x, []))) = Some m' /\
+                            Rb c (fst (if fix_wait fixed && ending x || pev x then goto GSd x else (set_pc WaitPlayer x, []))) m').
+      { intros x X1 X2 X3 X4 X5 X6 X7. rewrite X5, X6. cbn [fix_wait fixed andb]. rewrite orb_false_r.
+        destruct (ending s) eqn:En0.
+        - apply goto_t; [discriminate | | exact X2].
+          unfold Rt. simpl pc. cbn [class_of]. split; [exact A|]. split; [exact X3|]. split; [left; exact X4|].
+          split; [exact X7|]. intros _. left. change (ending x = true). congruence.
+        - exists m. split; [reflexivity|]. split; [|exact X2].
+          unfold Rt. simpl pc. cbn [class_of]. split; [exact A|]. split; [exact X3|]. split; [left; exact X4|].
+          split; [exact X7|]. intro G; discriminate G. }
+      destruct (gate fixed c (set_pev false s) && own_ok c).
+      * unfold add_first_player. destruct (hold_adds c).
+        -- apply WP; try reflexivity; auto.
+           intro i. unfold ball_i. simpl. destruct i as [|[|i]]; reflexivity.
+        -- replace (fix_wait fixed && _ || _) with true by (simpl; rewrite orb_true_r; reflexivity).
+           apply goto_t; [discriminate | | exact P].
+           unfold Rt. simpl pc. cbn [class_of]. split; [exact A|]. split; [exact B|].
+           split; [right; split; [reflexivity | unfold np; simpl; lia]|].
+           split; [intro i; unfold ball_i; simpl; destruct i as [|[|i]]; reflexivity|].
+           intros _. right. unfold np. simpl. lia.
+      * apply WP; try reflexivity; auto.
   - (* GSd *)
     pose proof H as H0. unfold Rt in H0. rewrite Epc in H0. cbn [class_of] in H0.
     destruct H0 as (A & B & D & E & F).
     apply loop_head_t; [|exact P]. intro En0.
     destruct (F eq_refl) as [F1|F1]; [congruence|].
-    destruct D as [[D1 D2]|[D1 D2]]; [lia|]. rewrite D1. cbn [Nat.eqb].
-    assert (Pb : pball s = 0) by (rewrite pball_ball_i, D1; apply E).
-    assert (Rn : rnd s = 1) by (unfold rnd; rewrite Pb, B; reflexivity).
-    unfold Rt. simpl pc. cbn [class_of]. split; [exact B|]. split.
-    + change (Core c s). unfold Core. rewrite D1, Rn. split; [lia|]. split; [|lia].
-      intro i. rewrite D1, Rn. split; [lia|]. intros _. rewrite E. reflexivity.
-    + change (LtPre s m). rewrite A. cbn. auto.
+    assert (Hs : exists s2, (if cur s =? 0 then rotate s else s) = s2 /\ cur s2 = 1 /\ np s2 = np s /\
+                            tactive s2 = false /\ (forall i, ball_i s2 i = ball_i s i)).
+    { destruct D as [D1|[D1 D2]]; rewrite D1; cbn [Nat.eqb].
+      - exists (rotate s). unfold rotate. rewrite D1. simpl. auto.
+      - exists s. auto. }
+    destruct Hs as (s2 & -> & C2 & N2 & T2 & Bi).
+    assert (Pb : pball s2 = 0) by (rewrite pball_ball_i, C2, Bi; apply E).
+    assert (Rn : rnd s2 = 1) by (unfold rnd; rewrite Pb, T2; reflexivity).
+    unfold Rt. simpl pc. cbn [class_of]. split; [exact T2|]. split.
+    + change (Core c s2). unfold Core. rewrite C2, N2, Rn. split; [lia|]. split; [|lia].
+      intro i. rewrite C2, N2, Rn, Bi. split; [lia|]. intros _. rewrite E. reflexivity.
+    + change (LtPre s2 m). rewrite A. cbn. auto.
   - (* GWE *) apply goto_t; [discriminate | apply Rt_end; reflexivity | exact P].
   - (* GEg *) apply goto_t; [discriminate | apply Rt_end; reflexivity | exact P].
   - (* GEd *) exists m. split; [reflexivity|]. split; [unfold Rt; simpl; exact I | exact P].
@@ -407,7 +413,7 @@ Proof.
     cbv beta iota in En. unfold wait_player_ready in En. cbn [fix_wait fixed andb] in En.
     apply goto_t; [discriminate | | exact P].
     eapply Rt_transfer; [simpl pc; rewrite Epc; reflexivity | | reflexivity | reflexivity | reflexivity | auto | exact H].
-    intros _. right. apply orb_true_iff in En as [En|En]; [left; exact En | right; apply Nat.ltb_lt; exact En].
+    intros _. right. apply orb_true_iff in En as [En|En]; [left; exact En | right; apply I5; exact En].
   - (* Done *) exists m. split; [reflexivity|]. split; assumption.
 Qed.
 
@@ -422,15 +428,38 @@ Lemma turn_structure_l : forall c ins, 1 <= bpg c -> turns_ok c (trace c ins).
 Proof.
   intros c ins Hb.
   assert (HS : exists m', mrun (tstep c) None (snd (steps c init ins)) = Some m' /\
-                          Rb c (fst (steps c init ins)) m').
-  { unfold steps. apply (mon_steps (tstep c) fixed c (Rm c) (Rb c)).
-    - intros s m [H P]. split; [exact H | left; exact P].
-    - intros s m o [H P]. exists m. split.
+                          (Rb c (fst (steps c init ins)) m' /\ Inv (fst (steps c init ins)))).
+  { unfold steps. apply (mon_steps (tstep c) fixed c (fun s m => Rm c s m /\ Inv s) (fun s m => Rb c s m /\ Inv s)).
+    - intros s m [[H P] HI]. split; [split; [exact H | left; exact P] | exact HI].
+    - intros s m o [[H P] HI]. exists m. split.
       + destruct o; reflexivity.
-      + split; [eapply Rt_Keep; [apply Keep_apply_op | exact H] | apply Pend_op; exact P].
-    - intros s m [H P]. apply Rt_flush; assumption.
-    - intros s m H En. apply Rt_adv; assumption.
+      + split; [split; [eapply Rt_Keep; [apply Keep_apply_op | exact H] | apply Pend_op; exact P]|].
+        eapply Inv_Keep; [apply Keep_apply_op | apply pev_apply_op | exact HI].
+    - intros s m [[H P] HI]. split; [apply Rt_flush; assumption|].
+      apply (Rg_flush c s (g_of s)). split; [reflexivity | exact HI].
+    - intros s m [H HI] En. destruct (Rt_adv c s m Hb H HI En) as [m' [E R]].
+      exists m'. split; [exact E|]. split; [exact R|].
+      destruct (Rg_adv c s (g_of s) (conj eq_refl HI) En) as [g' [_ [_ HI']]]. exact HI'.
     - intros s m H. exists m. split; [reflexivity | exact H].
-    - apply Rb_init. }
+    - split; [apply Rb_init | apply Rg_init]. }
   destruct HS as [m' [E _]]. exists m'. unfold trace, out0. rewrite mrun_app. cbn. exact E.
+Qed.
+
+(* The code before fixes/C06-first-player-after-held-add.patch (the other fixes applied): a handler of player_adding
+   holds the queues of players 1 and 2 (requested while game_will_start is handled); while game_starting is held,
+   the queue of player 2 is released first.  _player_adding_complete makes player 2 the current player and the
+   game starts with him: the turn monitor rejects the trace.  (Replayed on the implementation:
+   corpus/C06/game.4.json.) *)
+Definition no_first_fix : variant := mkv true true false.
+Definition first_cfg : cfg := mkcfg 2 4 3 true true.
+Definition first_ins : list input :=
+  [mkin [AddPlayerReq true; AddPlayerReq true] [] []; mkin [] [[ReleaseAdd true]] []] ++ repeat calm 30.
+
+Lemma first_player_refuted_unfixed_l :
+  exists c ins, 1 <= bpg c /\
+    mrun (tstep c) None (out0 ++ snd (steps_g no_first_fix c init ins)) = None /\
+    exists m, mrun (tstep c) None (trace c ins) = Some (Some m).
+Proof.
+  exists first_cfg, first_ins. split; [cbn; lia|]. split; [vm_compute; reflexivity|].
+  eexists. vm_compute. reflexivity.
 Qed.
